@@ -399,6 +399,21 @@ class _AsyncResult:
             raise
         except Exception as exc:       # what a worker would send back
             self.exc = exc
+            # a worker's exception reaches the parent by pickle: the parent's result-handler thread rebuilds it
+            # with type(e)(*e.args); an exception class whose __init__ does not accept that kills the thread,
+            # the result never arrives and the caller waits for ever
+            try:
+                import pickle
+                blob = pickle.dumps(exc)
+            except Exception:
+                blob = None                # (symbolic payloads etc.: transport not modelled for this one)
+            if blob is not None:
+                try:
+                    pickle.loads(blob)
+                except Exception as rebuild_exc:
+                    self.pool.handler_dead = "the worker's %s cannot be rebuilt in the parent: %r" % (
+                        type(exc).__name__, rebuild_exc)
+                    return
             if self.error_callback:
                 try:
                     self.error_callback(exc)
